@@ -26,7 +26,6 @@ func main() {
 	nflag := fs.Int("n", 0, "override case count")
 	replay := fs.String("replay", "", "replay file (domain specific)")
 	fs.Parse(os.Args[2:])
-	_ = replay
 
 	out := bufio.NewWriterSize(os.Stdout, 1<<20)
 	defer out.Flush()
@@ -43,6 +42,11 @@ func main() {
 	}
 
 	total := 0
+	if *replay != "" && domain != "facts" {
+		total = runReplay(out, *replay)
+		fmt.Fprintf(os.Stderr, "harness: replay=%s cases=%d\n", *replay, total)
+		return
+	}
 	switch domain {
 	case "facts":
 		if err := genFacts(out); err != nil {
